@@ -146,8 +146,40 @@ def spline_obligations(prop='C07'):
         o = B.static_obligation('%s/spline/__init__.py::Exp_Spline/translate' % prop, False, 'Exp_Spline', F_SPL, str(ex)); o.result = 'unknown'; out.append(o)
     return out
 
+def float_range_obligations(prop='C07'):
+    """A1 (float as real) is checked where it bit (zbl.deriv, DESIGN 9.9): over the statement's range of separations (out to 30 A) and the
+    parameter box of the forms, no math.exp in deriv/deriv2 is given an argument larger than 700 (exp(700) is a float) or, beyond that, than the largest one the ENERGY
+    of the same form needs -- so an offered derivative does not overflow where the energy is representable. Bounds by interval arithmetic on the arguments as
+    written in the source. A bound that exceeds is not a proof of overflow: undecided, and the oracle (r = 12, 21, 29.5 A) looks for the witness."""
+    out = []
+    box = dict(FM.DOMAIN); box['r'] = (0.05, 30.0)
+    for cls, (params, _spec) in sorted(FM.FORMS.items()):
+        sup = {}
+        for meth in ('__call__', 'deriv', 'deriv2'):
+            del B._LAST_EXP_ARGS[:]
+            try: B.method_term(FM.F, cls, meth, [r] + params)
+            except Exception: sup[meth] = 'untranslated'; continue
+            bs = [B.interval_sup(a, box) for a in list(B._LAST_EXP_ARGS)]
+            sup[meth] = None if not bs else ('unbounded' if any(b is None for b in bs) else max(bs))
+        if not any(isinstance(sup.get(m), (float, str)) for m in ('deriv', 'deriv2')): continue      # no exponential in the derivatives
+        e0 = sup.get('__call__')
+        for meth in ('deriv', 'deriv2'):
+            v = sup.get(meth)
+            if v is None: continue
+            name = '%s/potentialfunctions.py::%s.%s/exp-arguments-within-those-of-the-energy' % (prop, cls, meth)
+            if isinstance(v, str) or isinstance(e0, str):
+                o = B.static_obligation(name, False, cls + '.' + meth, FM.F, 'exp argument %s' % (v if isinstance(v, str) else e0)); o.result = 'unknown'
+            else:
+                bound = max(700.0, e0 if e0 is not None else 0.0)       # exp(700) is a float; beyond that only what the energy itself needs
+                ok = v <= bound + 1e-9 * max(1.0, abs(bound))
+                o = B.static_obligation(name, ok, cls + '.' + meth, FM.F, 'sup of an exp argument over the range box: %.6g, allowed %.6g (float range, or what the energy needs)' % (v, bound))
+                if not ok: o.result = 'unknown'       # an interval bound that exceeds does not show an overflow: the oracle decides
+            o.kind = 'float-range'; o.backend = 'interval arithmetic (mpmath.iv) on the exp arguments as written'
+            out.append(o)
+    return out
+
 def lemmas():
-    out = form_obligations() + combinator_obligations() + spline_obligations()
+    out = form_obligations() + combinator_obligations() + spline_obligations() + float_range_obligations()
     # closure: exact(a) and exact(b) => exact(combinator(a, b)): by the three identities above with deriv_a = a', deriv2_a = a''
     # (gradient contract: analytic derivative when offered, verified by Engine A below); any nesting depth by induction.
     return out
